@@ -1,0 +1,27 @@
+//go:build verif
+
+package wallet
+
+// This file exists only when the build tag "verif" is set. It adds no
+// behaviour: it exposes the unexported BIP39 helpers of seed.go to the
+// verification harness.
+
+// VerifEncodeBIP39Phrase is encodeBIP39Phrase.
+func VerifEncodeBIP39Phrase(entropy *[16]byte) string { return encodeBIP39Phrase(entropy) }
+
+// VerifDecodeBIP39Phrase is decodeBIP39Phrase.
+func VerifDecodeBIP39Phrase(entropy *[16]byte, phrase string) error {
+	return decodeBIP39Phrase(entropy, phrase)
+}
+
+// VerifBIP39Checksum is bip39checksum.
+func VerifBIP39Checksum(entropy *[16]byte) uint64 { return bip39checksum(entropy) }
+
+// VerifBIP39WordList returns a copy of the word list used by the encoder.
+func VerifBIP39WordList() []string { return append([]string(nil), bip39EnglishWordList...) }
+
+// VerifBIP39WordIndex is the lookup used by the decoder (wordMap).
+func VerifBIP39WordIndex(word string) (uint64, bool) {
+	i, ok := wordMap[word]
+	return i, ok
+}
